@@ -98,17 +98,16 @@ VisitAvail ==
   /\ UNCHANGED <<pass, order, prevs, nexts, roots, sweeps, lastEnd>>
 
 \* ---- liveness: backward, cfg.iter().rev(); a call site also adds to the live-in of the callee's exit, so
-\* only the order, the flag's monotonicity and the end state are compared
+\* only the order, the flag's monotonicity and the end state are compared (the facts of a node can change between
+\* two of its visits without the flag being set in the second one)
 VisitLive ==
   /\ Rec[l].ev = "visit" /\ Rec[l].pass = "liveness"
   /\ LET e == Rec[l] n == e.id
          k == Len(order) + 1 - cursor
          i == <<ToSet(e.in), ToSet(e.udef)>>  o == ToSet(e.out)
-         own == n \in DOMAIN fin /\ (i # fin[n] \/ o # fout[n])
      IN /\ SayAll("DRIFT", e,
                   When(k < 1 \/ (k >= 1 /\ order[k] # n), "liveness:visit-order")
-                  \o When(changed /\ ~e.changed, "liveness:changed-flag-went-back")
-                  \o When(own /\ ~e.changed, "liveness:changed-flag-missed-a-change"))
+                  \o When(changed /\ ~e.changed, "liveness:changed-flag-went-back"))
         /\ fin'  = [j \in DOMAIN fin \cup {n}  |-> IF j = n THEN i ELSE fin[j]]
         /\ fout' = [j \in DOMAIN fout \cup {n} |-> IF j = n THEN o ELSE fout[j]]
         /\ visited' = visited \cup {n}
